@@ -385,7 +385,11 @@ func (m *minimizer) passParams() bool {
 // minimize returns the smallest case found that fails like (c, vd), its verdict and the
 // number of candidate builds spent.
 func minimize(ctx context.Context, env *hostEnv, c Case, vd Verdict, budget int) (Case, Verdict, int) {
-	m := &minimizer{ctx: withCallTimeout(ctx, minimiseTimeout), env: env, budget: budget, want: sameClass(c, vd), cur: c, curVd: vd}
+	to := minimiseTimeout
+	if vd.Kind == vdMismatch && vd.MKind == mkNonterm {
+		to = minimiseNontermTimeout
+	}
+	m := &minimizer{ctx: withCallTimeout(ctx, to), env: env, budget: budget, want: sameClass(c, vd), cur: c, curVd: vd}
 	for round := 0; round < 5 && !m.spent(); round++ {
 		progress := m.passCalls()
 		progress = m.passReturnSub() || progress
